@@ -713,7 +713,7 @@ def r02_8(ctx):
                 start = bool_call_edges(ad, lib, HS_INSERT, True, arg_pred=lambda tt, t=t: tt is t)
             if not start:
                 start = out_edges(ad, [bb])
-            reached = ad.reachable_from_edges(start, cut=out_edges(ad, incs))
+            reached = C.after_edges(ad, start, cut=out_edges(ad, incs))
             esc = [h for h in heads + rets if h in reached and h not in incs]
             if esc:
                 ctx.violation(["edge-not-counted", kind], "add_dependency can record a new dependency edge without incrementing the depender's "
@@ -740,7 +740,7 @@ def r02_8(ctx):
             else:
                 ctx.anchor_missing("depender loop with decrement and release in notify_finish")
         else:
-            reached = nf.reachable_from_edges(some_e, cut=out_edges(nf, decs + rels))
+            reached = C.after_edges(nf, some_e, cut=out_edges(nf, decs + rels))
             esc = [h for h in heads if h in reached]
             if esc:
                 ctx.violation(["edge-dropped"], "notify_finish can drop a finished edge without decrementing the depender's counter or releasing it "
